@@ -235,6 +235,14 @@ pub fn c02(tier: &str, seed: u64) -> Vec<Case> {
             let back = parse_out(b);
             if back != format!("ok {}", ptxt) {
                 c = c.fail("build-parse-differs", format!("parse(build(p)) != p: got {}", &back[..back.len().min(300)]));
+            } else if let Ok(parsed) = Packet::parse(b) {
+                // "the same packet" also by the library's own `==` on every record (whatever a value keeps besides what
+                // the text form above shows), and the packet read back writes the bytes it was read from
+                let pairs = p.answers.iter().zip(parsed.answers.iter()).chain(p.name_servers.iter().zip(parsed.name_servers.iter())).chain(p.additional_records.iter().zip(parsed.additional_records.iter()));
+                let mut unequal = None;
+                for (x, y) in pairs { if !(x == y) || !(y == x) || x.rdata != y.rdata { unequal = Some(text::rr(x)); break; } }
+                if let Some(u) = unequal { c = c.fail("build-parse-differs", format!("parse(build(p)) prints like p but a record compares unequal: {}", &u[..u.len().min(200)])); }
+                else if parsed.build_bytes_vec().ok().as_ref() != Some(b) { c = c.fail("build-parse-differs", "parse(build(p)) prints like p but serialises to other bytes than p".into()); }
             }
             v.push(Case::new(format!("parse {}", text::hex(b)), back).tag("parse"));
         } else {
